@@ -41,6 +41,10 @@ CLAIMED = {
             "Seeded exploration: a BasicAuth-guarded application (single pair or array of 1..5 pairs with Unicode, colons in passwords, empty parts, prefix-related pairs; fang at root / on a mount / local) receives 2..10 requests on a keep-alive connection with generated Authorization values (correct, mixed pairs, prefix/suffix variants, other schemes, invalid base64, base64 of non-UTF-8 bytes with the invalid byte first/middle/last, missing; a correct request followed by one without the header on the same connection); an independent credential model decides and 401 + `WWW-Authenticate: Basic` is required for every refusal. Only connection reuse is a live simulator dimension here (stated in DESIGN.md): the deciding power is seeded generation against the model on the real server.",
             "Trusts the base64 crate for the model's decoding; `basic` in another case and unpadded base64 are checked one way only.",
             "reference credential model on live keep-alive connections"),
+    "C14": ("DESIGN.md 5.C14",
+            "Seeded exploration: a generated CORS policy (wildcard/specific origin, credentials, allow/expose lists, max-age) guards a generated application (C01's generator: method subsets, nested mounts, routes registered in one or several pieces, erroring handlers) in the real server; 3..12 simple requests, preflights (registered/unregistered/unknown requested methods, requested headers, registered and unregistered paths) and bare OPTIONS travel over a keep-alive connection; a CORS model fed with the policy and the route table decides every header and status, and a successful preflight must have a determinable empty body. Only connection reuse is a live simulator dimension (stated in DESIGN.md).",
+            "Trusts the CORS model (DESIGN.md A.5) and C01's router model; HEAD/OPTIONS as requested method and Vary are open; routing-ambiguous requests are skipped.",
+            "reference CORS model over the route table on live keep-alive connections"),
     "C17": ("DESIGN.md 5.C17",
             "Seeded exploration over producer schedules: 1..3 concurrent SSE connections, each driven by a generated producer script (sends of arbitrary Unicode text incl. LF/CR/CRLF/field look-alikes/NUL/BOM, bursts before a yield, self-waking yields, timer sleeps, completion with empty or non-empty queue) through DataStream::new (QueueStream), DataStream::from(custom Stream) and Response::with_stream, read over sockets with tape-chosen windows, read sizes and pauses (back-pressure between chunks) and short writes; an independent chunked decoder and WHATWG event-stream parser must yield exactly the messages in order with no foreign field, the stream must terminate, and a follow-up request on the same connection must be answered.",
             "Trusts the independent chunked decoder and event-stream parser (DESIGN.md A.7) and the facade's timer/yield semantics.",
